@@ -17,7 +17,7 @@ RULE = ('victim = release build of the current tree; every secret is run through
         'HMAC over SHA-1/SHA-256/SHA-512/SHA3-256/BLAKE2b/RIPEMD-160 (also a key longer than the block and a multi-call message), keyed BLAKE2b/2s MAC, ChaCha8/12/20 (16- and 32-byte keys), ChaChaOriginal, XChaCha20, Salsa20/12, XSalsa20, ChaCha20-Poly1305 one-shot encryption/decryption and incremental encryption, MacResult == for 16/20/28/32/48/64-byte MACs, Tag == and Tag::ct_eq with the first mismatch at every position. '
         'Monitor 3 (decides, value-independent): valgrind memcheck with the secret bytes marked undefined right before the call (ctgrind idiom): a "conditional jump depends on uninitialised value" '
         'report with a crate frame among the top frames means a branch condition derives from the secret, whether or not the sampled values take it differently (uses of the secret as a memory address are counted, not judged). '
-        'Secrets: random, all-zero, all-ones, single-bit, low/high Hamming weight; distinct = (target, secret)')
+        'Builds: default, -C codegen-units=1 (all targets), force-32bits and the ed25519+x25519-only feature set (curve targets), +avx2 (hash / MAC / cipher targets that reach vectorised code). Secrets: random, all-zero, all-ones, single-bit, low/high Hamming weight; distinct = (target, secret)')
 ASSUMPTIONS = ['decides on sampled secrets, this compiler and this host; says nothing about instruction latency or memory-address leakage',
                'callgrind and ptrace observe user-space instructions of the victim process; libc routines reached inside the region (memcpy, malloc) are part of the trace']
 FLOORS = {'evaluations': 300, 'distinct': 300}
@@ -25,8 +25,9 @@ FLOORS = {'evaluations': 300, 'distinct': 300}
 LARGE = ['x25519', 'x25519_base', 'ed_keypair', 'ed_sign', 'ed_sign_ext', 'ed_sign_ext_raw', 'ed_ext_pub', 'ed_exchange', 'x_dh', 'x_base']
 SMALL = ['poly1305', 'poly1305_wrapmsg', 'hmac_sha256', 'hmac_sha512', 'chacha20', 'xchacha20', 'salsa20', 'aead_encrypt',
          'hmac_sha1', 'hmac_sha3_256', 'hmac_blake2b', 'hmac_ripemd160', 'hmac_sha256_longmsg', 'hmac_sha512_key128', 'chacha8_k16', 'chacha12', 'chachaoriginal', 'xsalsa20', 'salsa20_k16',
-         'aead_decrypt', 'aead_incremental', 'poly1305_chunks', 'blake2b_mac', 'blake2s_mac']
+         'aead_decrypt', 'aead_incremental', 'poly1305_chunks', 'blake2b_mac', 'blake2s_mac', 'hmac_sha256_big', 'blake2b_mac_big', 'blake2s_mac_big']
 CMP = {'macresult_eq16': 16, 'macresult_eq20': 20, 'macresult_eq28': 28, 'macresult_eq32': 32, 'macresult_eq48': 48, 'macresult_eq64': 64, 'tag_eq': 16, 'tag_cteq': 16}
+AVX2_TARGETS = ['hmac_sha256', 'hmac_sha256_longmsg', 'hmac_sha256_big', 'blake2b_mac_big', 'blake2s_mac_big', 'hmac_blake2b', 'blake2b_mac', 'blake2s_mac', 'hmac_sha512', 'chacha20', 'aead_encrypt', 'aead_incremental', 'poly1305', 'ed_sign', 'macresult_eq32', 'tag_eq']
 PUBLIC_TAG = bytes(((i * 37) + 11) & 0xff for i in range(64))
 
 
@@ -129,7 +130,7 @@ def taint_target(victim, target, secrets, wd):
     sf = os.path.join(d, 'secrets.txt')
     open(sf, 'w').write('\n'.join(s.hex() for _, s in secrets) + '\n')
     log = os.path.join(d, 'vg.log')
-    cmd = ['valgrind', '--tool=memcheck', '--leak-check=no', '--error-exitcode=0', '--num-callers=16', '--error-limit=no', '--log-file=' + log, victim, target, sf, 'taint']
+    cmd = ['valgrind', '--tool=memcheck', '--leak-check=no', '--error-exitcode=0', '--num-callers=24', '--error-limit=no', '--fullpath-after=/repo/', '--log-file=' + log, victim, target, sf, 'taint']
     try:
         p = subprocess.run(cmd, stdout=subprocess.PIPE, stderr=subprocess.PIPE, text=True, timeout=1800)
     except subprocess.TimeoutExpired:
@@ -140,10 +141,17 @@ def taint_target(victim, target, secrets, wd):
     jumps, addr_uses = [], 0
     for blk in re.split(r'\n==\d+== \n', txt):
         if 'Conditional jump or move depends on uninitialised value' in blk:
-            frames = re.findall(r'(?:at|by) 0x[0-9A-F]+: (.+?)(?: \(|$)', blk, flags=re.M)
-            top = frames[:4]
-            if any('cryptoxide::' in f for f in top):
-                jumps.append({'frames': [f[:140] for f in frames[:5]]})
+            # frames from the innermost outwards, up to the victim's marker function; inlined frames carry short names, so a frame
+            # belongs to the crate when its name says so or when its source file lies under /repo/src (--fullpath-after=/repo/)
+            frames = []
+            for m in re.finditer(r'(?:at|by) 0x[0-9A-F]+: (.+?)(?: \(([^()]*)\))?\s*$', blk, flags=re.M):
+                name, where = m.group(1), m.group(2) or ''
+                if name.startswith('ct_region'):
+                    break
+                frames.append((name, where))
+            crate = [(n, w) for n, w in frames if 'cryptoxide::' in n or w.startswith('src/')]
+            if crate:
+                jumps.append({'frames': ['%s (%s)' % (n[:110], w) for n, w in frames[:8]], 'crate_frame': next((n for n, w in crate if 'cryptoxide::' in n), '%s (%s)' % crate[0])})
         elif 'Use of uninitialised value' in blk:
             addr_uses += 1
     shutil.rmtree(d, ignore_errors=True)
@@ -182,7 +190,7 @@ def first_divergence(d, i, j, victim):
 
 
 def _monitors(rep, extra, inconclusive, label, vic, tgts, secrets, wd, tracer, thorough, replay):
-    sfx = '' if label.startswith('64') else '@f32'
+    sfx = '' if label.startswith('64') else ('@avx2' if 'avx2' in label else ('@cgu1' if 'codegen-units' in label else ('@curveonly' if 'curve-only' in label else '@f32')))
     # ---- monitor 2
     with ThreadPoolExecutor(max_workers=R.NPROC) as ex:
         res2 = list(ex.map(lambda t: callgrind_target(vic, t, secrets[t], wd), tgts))
@@ -215,7 +223,7 @@ def _monitors(rep, extra, inconclusive, label, vic, tgts, secrets, wd, tracer, t
                                                  'secret_used_as_address': r['secret_dependent_addresses']})
         seen = set()
         for j in r['secret_dependent_jumps']:
-            fn = next((f for f in j['frames'] if 'cryptoxide::' in f), j['frames'][0])
+            fn = j['crate_frame']
             if fn in seen:
                 continue
             seen.add(fn)
@@ -305,6 +313,28 @@ def run(tier, seed, replay=None):
             configs.append(('32-bit limb backend (force-32bits build)', victim32, [t for t in targets if t in LARGE]))
         except R.Inconclusive as e:
             inconclusive.append('force-32bits victim not built: %s' % str(e)[-200:])
+    # the same sources optimised as one unit: inlining decisions differ (a masked select that stays branch-free only because a helper is
+    # not inlined shows here)
+    if not replay or os.environ.get('C19_REPLAY_CGU1'):
+        try:
+            victim_cgu1 = R.build('cgu1', binary='ctvictim')
+            configs.append(('whole-crate optimisation (-C codegen-units=1)', victim_cgu1, targets))
+        except R.Inconclusive as e:
+            inconclusive.append('codegen-units=1 victim not built: %s' % str(e)[-200:])
+    # the library as a pure Ed25519 / X25519 user compiles it (cargo features ed25519 + x25519 only)
+    if not replay or os.environ.get('C19_REPLAY_CURVEONLY'):
+        try:
+            victim_co = R.build('curveonly', binary='ctvictim')
+            configs.append(('curve-only feature set (--no-default-features --features ed25519,x25519)', victim_co, [t for t in targets if t in LARGE]))
+        except R.Inconclusive as e:
+            inconclusive.append('curve-only victim not built: %s' % str(e)[-200:])
+    # the vectorised build: SHA-256 (AVX 8-way / SSE4.1 4-way), BLAKE2 (AVX / AVX2) and everything built on them
+    if (not replay or os.environ.get('C19_REPLAY_AVX2')) and ' avx2 ' in open('/proc/cpuinfo').read().replace('\n', ' '):
+        try:
+            victim_avx2 = R.build('avx2', binary='ctvictim')
+            configs.append(('vectorised build (+avx2)', victim_avx2, [t for t in targets if t in AVX2_TARGETS]))
+        except R.Inconclusive as e:
+            inconclusive.append('+avx2 victim not built: %s' % str(e)[-200:])
     for label, vic, tgts in configs:
         _monitors(rep, extra, inconclusive, label, vic, tgts, secrets, wd, tracer, thorough, replay)
     rep.samples = ['%s %s (%s)' % (t, secrets[t][i][1].hex(), secrets[t][i][0]) for t in targets[:8] for i in (0, min(3, len(secrets[t]) - 1))]
